@@ -286,6 +286,11 @@ func lbGen(seed uint64, tier string, focus string) *Scenario {
 			var early []lbStep
 			for n := r.Range(1, 3); n > 0; n-- {
 				st := lbStep{AtNs: int64(r.LogUniform(1, int(2*s.Net.DialDelayNs+2*s.Net.LatencyNs+1000))), SC: r.Intn(3)}
+				if r.Chance(1, 3) {
+					// in the very instant the SubConns were created and told to
+					// connect (with an ideal network: in which they connect)
+					st.AtNs = 0
+				}
 				lbGenAddrs(r, &st)
 				early = append(early, st)
 			}
